@@ -3,6 +3,7 @@ current Go source (go2coq), build proofs, build the extracted model + the Go ste
 run cases through both and compare."""
 import hashlib
 import os
+import sys
 import re
 import subprocess
 import time
@@ -264,11 +265,38 @@ def rand_state(rng):
     return st
 
 
+def gen_data():
+    """the data files of the hand models (Gen/TinyData.v, Gen/ZexData.v, Gen/CimConsts.v) are regenerated from the
+    repository by their checks on every run; setup produces them once so that everything can be built."""
+    import importlib
+    sys.path.insert(0, VERIF)
+    try:
+        c18 = importlib.import_module("checks.c18")
+        c18.write_data(c18.dump_bios(c18.build()))
+    except Exception as e:
+        log("setup: TinyData.v not generated: %s" % str(e)[-300:])
+    try:
+        c17 = importlib.import_module("checks.c17")
+        res = c17.analyse()
+        if res["build_error"] is None:
+            c17.write_if_changed(c17.GEN_V, c17.render_gen(res["dump"], res["images"]))
+        else:
+            log("setup: ZexData.v not generated: %s" % res["build_error"][-300:])
+    except Exception as e:
+        log("setup: ZexData.v not generated: %s" % str(e)[-300:])
+    try:
+        c19 = importlib.import_module("checks.c19")
+        c19.extract_consts()
+    except Exception as e:
+        log("setup: CimConsts.v not generated: %s" % str(e)[-300:])
+
+
 def setup():
     """MANIFEST.setup_cmd: build everything offline."""
     t0 = time.time()
     build_go2coq()
     regen()
+    gen_data()
     import json
     man = json.load(open(os.path.join(VERIF, "MANIFEST.json")))
     targets = ["theories/Gen/Names.vo", "theories/Spec/Exec.vo"]
